@@ -40,8 +40,9 @@ def tracer(frame, event, arg):
 from experimaestro import experiment  # noqa: E402
 from xvschema.jobdir import Body2  # noqa: E402
 
-threading.settrace(tracer)
-sys.settrace(tracer)
+if k != 0:      # k = 0: plain run, no tracing at all (k = -1: count the statements only)
+    threading.settrace(tracer)
+    sys.settrace(tracer)
 states = None
 try:
     with experiment(workdir, "restart", port=-1) as xp:
